@@ -374,7 +374,13 @@ func TestVerifC01Reload(t *testing.T) {
 			g := vfBuildWorld(vfBootOpts{}, false)
 			o := &vfReloadObs{}
 			for i, s := range []string{"o1", "ma"} {
-				_, fr := g.cl[s].Req(`{"pub":{"id":"$ID","topic":"%s","content":"pre%d"}}`, g.grp, i)
+				// the newest message before the unload is an edit of the first one (head.replace): it is
+				// numbered like any other message
+				head := ""
+				if i == 1 {
+					head = `,"head":{"replace":":1"}`
+				}
+				_, fr := g.cl[s].Req(`{"pub":{"id":"$ID","topic":"%s","content":"pre%d"%s}}`, g.grp, i, head)
 				for _, f := range fr {
 					if f.Msg.Ctrl != nil && f.Msg.Ctrl.Code == 202 {
 						o.Before = append(o.Before, vfInt(f.Msg.Ctrl.Params.(map[string]any)["seq"]))
@@ -547,7 +553,7 @@ func vfHistoryOps(g *vfGW) []func() {
 		func() { g.cl["o1"].Req(`{"pub":{"id":"$ID","topic":"%s","content":"h1"}}`, g.grp) },
 		func() { g.cl["ma"].Req(`{"pub":{"id":"$ID","topic":"%s","content":"h2","head":{"mime":"text/x-drafty"}}}`, g.grp) },
 		func() { g.cl["ma"].Req(`{"note":{"topic":"%s","what":"read","seq":2}}`, g.grp) },
-		func() { g.cl["o1"].Req(`{"pub":{"id":"$ID","topic":"%s","content":"h3"}}`, g.grp) },
+		func() { g.cl["o1"].Req(`{"pub":{"id":"$ID","topic":"%s","content":"h3","head":{"replace":":1"}}}`, g.grp) },
 		func() { g.cl["ma"].Req(`{"del":{"id":"$ID","topic":"%s","what":"msg","delseq":[{"low":1}]}}`, g.grp) },
 		func() { g.cl["mb"].Req(`{"pub":{"id":"$ID","topic":"%s","content":"h4"}}`, g.grp) },
 	}
